@@ -318,6 +318,42 @@ pub fn build_world(geo: &mut Box<dyn Geo>, rng: &mut Xo, ext: f64, family: &'sta
                 start_invalid: false,
             }
         }
+        "slivers" => {
+            // many short thin obstacles (thicker than the resolution, thinner than typical steps
+            // and radii): boxes on the leading real-vector block, small balls elsewhere
+            let mut obs = vec![];
+            let k = rng.usize_in(6, 16);
+            match leading_box(geo.spec()) {
+                Some(bx) if bx.len() >= 2 => {
+                    for _ in 0..k {
+                        let thin = rng.below(bx.len() as u64) as usize;
+                        let mut lo = vec![];
+                        let mut hi = vec![];
+                        for (i, (l0, h0)) in bx.iter().enumerate() {
+                            let size = if i == thin { l * rng.range(1.5, 3.5) } else { (h0 - l0) * rng.range(0.08, 0.25) };
+                            let a = rng.range(*l0, (h0 - size).max(*l0));
+                            lo.push(a);
+                            hi.push(a + size);
+                        }
+                        obs.push(Obstacle::Box { lo, hi });
+                    }
+                }
+                _ => {
+                    for _ in 0..k {
+                        if let Some(c) = geo.sample(rng) {
+                            obs.push(Obstacle::Ball { c, r: l * rng.range(1.5, 3.5) });
+                        }
+                    }
+                }
+            }
+            let world = WorldSpec { obstacles: obs };
+            geo.set_worlds(&[world.clone()]);
+            let (start, target) = match (sample_valid(&**geo, rng, 0, &any), sample_valid(&**geo, rng, 0, &any)) {
+                (Some(s), Some(t)) => (s, t),
+                _ => return open(geo, rng, "open"),
+            };
+            WorldBuild { world, start, target, goal_radius, family, sealed: false, start_invalid: false }
+        }
         "goal_invalid" => {
             let mut wb = open(geo, rng, "goal_invalid");
             wb.goal_radius = goal_radius;
